@@ -90,6 +90,10 @@ class C09(MsgProp):
                 yield ("ENC " + g.message(r, n, "wild"), "wild", True)
         for w in ("E", "C", "U0", "U1150", "U4095", "U65535"):
             yield ("ENC " + w, "no-wire-form", True)
+        # payload sizes around the 255/256-byte boundary (1029: 9 header bytes + text) and byte-aligned bodies
+        for t in list(range(240, 256)) + [0, 1, 7]:
+            txt = ("é" * (t // 2) + "a" * (t % 2)).encode()     # <= 127 characters, t bytes
+            yield ("ENC 1029 i%d i%d i%d b%s" % (r.randrange(4096), r.randrange(65536), r.randrange(86400), hx(txt)), "payload-size-boundary", True)
         for n, fid in ((1059, "df_msg1059_biases"), (1065, "df_msg1065_biases")):
             for shape in ("flood", "flood", "over31", "allsats", "cap", "badsat"):
                 head = g.frag(r, g.mod_of[n], "valid")
